@@ -35,7 +35,7 @@ VIEW View
 """
 
 
-SFX = {"SchemaA": "", "SchemaV": "V"}
+SFX = {"SchemaA": "", "SchemaV": "V", "SchemaB": "B"}
 
 
 def write_cfg(path, schema, depth, invs=(), props=(), export=False, bound=True):
@@ -202,6 +202,22 @@ def run_machine(prop, invs, props, tier, seed, schema="SchemaA", signature_prefi
     return out
 
 
+def merge(a, b):
+    """Merge the outcome of a second instance into the first."""
+    a.violations += b.violations
+    ca, cb = a.coverage, b.coverage
+    for k in ("states", "transitions", "traces_validated_against_impl", "spec_to_code_graph_cases", "spec_to_code_sim_cases",
+              "spec_to_code_steps", "simulated_behaviours", "code_to_spec_traces", "code_to_spec_events", "code_to_spec_tlc_states",
+              "evaluations", "distinct_nontrivial"):
+        ca[k] = ca.get(k, 0) + cb.get(k, 0)
+    for k, v in cb.get("spec_to_code_by_op", {}).items():
+        ca["spec_to_code_by_op"][k] = ca["spec_to_code_by_op"].get(k, 0) + v
+    ca["tlc_instance"] = ca["tlc_instance"] + " + " + cb["tlc_instance"]
+    ca["samples"] = ca["samples"] + cb["samples"][:1]
+    a.assumptions = a.assumptions + [x for x in b.assumptions if x not in a.assumptions]
+    return a
+
+
 def brief(ev):
     e = {k: v for k, v in ev.items() if k in ("op", "n", "p", "k", "o")}
     if "v" in ev:
@@ -251,6 +267,10 @@ def rnd_leaf_value(rng, f):
         return {"t": rng.choice(["list", "tuple"]), "l": [rnd_leaf_value(rng, f["item"]) for _ in range(rng.randint(0, 3))]}
     if kind == "dict":
         return {"t": "dict", "kv": [[S(k), rnd_leaf_value(rng, f["valf"])] for k in rng.sample(["k", "K", "m", "n"], rng.randint(0, 3))]}
+    if kind in ("ipv4addr", "ipv4net", "hostname", "url", "float", "bytes"):
+        from .c05 import rnd_value
+
+        return rnd_value(rng, f)
     return I(1)
 
 
